@@ -57,23 +57,28 @@ def r2(ctx):
     asg = [(nid, rhs, lhs) for nid, d, rhs, op, lhs in fn.assignments() if op == '=' and lhs is not None]
     ok = False
     detail = 'no assignment to *crc'
+    pv, pc = fn.P(0), fn.P(1)
     for nid, rhs, lhs in asg:
-        if fn.key(lhs) != '*crc':
+        if fn.key(lhs) != '*' + pc:
             continue
         k = fn.key(rhs)
         detail = k
-        ok = k in ('(int)(ebusd::CRC_LOOKUP_TABLE[*crc] ^ value)', '(ebusd::CRC_LOOKUP_TABLE[*crc] ^ value)',
-                   '(value ^ ebusd::CRC_LOOKUP_TABLE[*crc])')
+        ok = False
         r = fn.nodes.get(fn.strip(rhs, casts=True), {})
         if r.get('k') == 'BinaryOperator' and r.get('op') == '^':
             ops = sorted([fn.key(fn.strip(r['lhs'], casts=True)), fn.key(fn.strip(r['rhs'], casts=True))])
-            ok = ops in (sorted(['ebusd::CRC_LOOKUP_TABLE[*crc]', 'value']), sorted(['CRC_LOOKUP_TABLE[*crc]', 'value']))
+            ok = ops in (sorted(['ebusd::CRC_LOOKUP_TABLE[*%s]' % pc, pv]), sorted(['CRC_LOOKUP_TABLE[*%s]' % pc, pv]))
         ctx.ob('C11.R2', fn, nid, ok, 'updateCrc step', 'step is %s' % detail)
     if not asg:
         raise AnalysisBroken('C11.R2: updateCrc body not recognised')
     cc = fb.fn('ebusd::SymbolString::calcCrc')
     ctx.touch(cc)
-    init = [rhs for nid, d, rhs, op, lhs in cc.assignments() if op == 'init' and d and d.endswith(':crc')]
+    crcv = cc.outarg('::updateCrc', 1)
+    vals = cc.local_where(lambda k, r: k.startswith('this.m_data['))
+    if crcv is None or len(vals) != 1:
+        raise AnalysisBroken('C11.R2: calcCrc accumulator / symbol variable not recognised')
+    value = vals[0]
+    init = [rhs for nid, d, rhs, op, lhs in cc.assignments() if op == 'init' and d and d.endswith(':' + crcv)]
     ctx.ob('C11.R2', cc, cc.body, bool(init) and cc.val(init[0]) == 0, 'calcCrc initial value',
            'initial CRC %s' % (cc.val(init[0]) if init else None), nontrivial=False)
     calls = cc.calls('ebusd::SymbolString::updateCrc', suffix=False)
@@ -82,11 +87,11 @@ def r2(ctx):
     arms = {}
     for c in sorted(calls, key=lambda c: cc.pos(c)):
         atoms = dict((a[0], a[1]) for a in cc.atoms(c))
-        e = atoms.get('(value == #%d)' % ESC)
-        s = atoms.get('(value == #%d)' % SYN)
+        e = atoms.get('(%s == #%d)' % (value, ESC))
+        s = atoms.get('(%s == #%d)' % (value, SYN))
         arm = 'esc' if e else ('syn' if (e is False and s) else ('plain' if (e is False and s is False) else 'other'))
         arms.setdefault(arm, []).append(cc.key(cc.nodes[c]['args'][0]))
-    want = {'esc': ['#%d' % ESC, '#0'], 'syn': ['#%d' % ESC, '#1'], 'plain': ['value']}
+    want = {'esc': ['#%d' % ESC, '#0'], 'syn': ['#%d' % ESC, '#1'], 'plain': [value]}
     for arm in ('esc', 'syn', 'plain'):
         got = arms.get(arm)
         ctx.ob('C11.R2', cc, cc.body, got == want[arm], 'calcCrc arm %s' % arm, 'feeds %s, expected %s' % (got, want[arm]))
@@ -104,16 +109,21 @@ def r3(ctx):
     fn = fb.fn('ebusd::SymbolString::parseHexEscaped')
     ctx.touch(fn)
     pushes = [c for c in fn.all('CXXMemberCallExpr') if (fn.nodes[c].get('callee') or '').endswith('::push_back')]
+    vals = fn.local_where(lambda k, r: 'parseInt(' in k)
+    flags = fn.local_where(lambda k, r: fn.nodes.get(fn.strip(r), {}).get('k') == 'CXXBoolLiteralExpr')
+    if len(vals) != 1 or len(flags) != 1:
+        raise AnalysisBroken('C11.R3: parsed byte / escape flag of parseHexEscaped not recognised (%s, %s)' % (vals, flags))
+    value, inEscape = vals[0], flags[0]
     table = {}
     for c in pushes:
         atoms = dict((a[0], a[1]) for a in fn.atoms(c))
         arg = fn.key(fn.nodes[c]['args'][0])
-        if atoms.get('inEscape'):
+        if atoms.get(inEscape):
             for code in (0, 1):
-                if atoms.get('(value == #%d)' % code):
+                if atoms.get('(%s == #%d)' % (value, code)):
                     table[code] = arg
-        elif atoms.get('inEscape') is False:
-            ok = atoms.get('(value == #%d)' % ESC) is False and atoms.get('(value == #%d)' % SYN) is False and arg == 'value'
+        elif atoms.get(inEscape) is False:
+            ok = atoms.get('(%s == #%d)' % (value, ESC)) is False and atoms.get('(%s == #%d)' % (value, SYN)) is False and arg == value
             ctx.ob('C11.R3', fn, c, ok, 'parseHexEscaped plain byte', 'plain byte stored only if it is neither ESC nor SYN: %s' % ok)
     ctx.ob('C11.R3', fn, fn.body, table == {0: '#%d' % ESC, 1: '#%d' % SYN}, 'parseHexEscaped escape table',
            'after ESC: %s (expected 00->ESC, 01->SYN)' % table)
@@ -131,11 +141,11 @@ def r3(ctx):
         atoms = dict((a[0], a[1]) for a in fn.atoms(r))
         k = fn.key(rv) if rv is not None else ''
         if fn.val(rv) == err_esc:
-            if atoms.get('inEscape') is False and atoms.get('(value == #%d)' % SYN):
+            if atoms.get(inEscape) is False and atoms.get('(%s == #%d)' % (value, SYN)):
                 bare_syn = True
-            if atoms.get('inEscape') and atoms.get('(value == #0)') is False and atoms.get('(value == #1)') is False:
+            if atoms.get(inEscape) and atoms.get('(%s == #0)' % value) is False and atoms.get('(%s == #1)' % value) is False:
                 other_pair = True
-        if k.startswith('(inEscape ? #%d' % err_esc):
+        if k.startswith('(%s ? #%d' % (inEscape, err_esc)):
             dangling = True
     ctx.ob('C11.R3', fn, fn.body, bare_syn, 'parseHexEscaped rejects bare SYN', 'found=%s' % bare_syn)
     ctx.ob('C11.R3', fn, fn.body, other_pair, 'parseHexEscaped rejects invalid pair', 'found=%s' % other_pair)
@@ -144,8 +154,12 @@ def r3(ctx):
     hs = fb.fn('ebusd::DirectProtocolHandler::handleSend')
     ctx.touch(hs)
     first = second = None
+    sends = [c for c in hs.all('CXXMemberCallExpr') if (hs.nodes[c].get('callee') or '').endswith('Device::send')]
+    if not sends:
+        raise AnalysisBroken('C11.R3: Device::send call in handleSend not found')
+    sendSymbol = hs.key(hs.nodes[sends[0]]['args'][0])
     for nid, d, rhs, op, lhs in hs.assignments():
-        if d and d.endswith(':sendSymbol') and op == '=' and rhs is not None:
+        if d and d.endswith(':' + sendSymbol) and op == '=' and rhs is not None:
             atoms = dict((a[0], a[1]) for a in hs.atoms(nid))
             if atoms.get('this.m_escape') is False and ('this.m_escape' in atoms):
                 first = (nid, hs.key(rhs), atoms)
@@ -154,13 +168,12 @@ def r3(ctx):
     if not first or not second:
         raise AnalysisBroken('C11.R3: escape block of handleSend not recognised')
     ctx.ob('C11.R3', hs, first[0], first[1] == '#%d' % ESC, 'handleSend first escape byte', 'sends %s first' % first[1])
-    want2 = ('(ebusd::symbol_t)((sendSymbol == #%d) ? #0 : #1)' % ESC, '((sendSymbol == #%d) ? #0 : #1)' % ESC,
-             '(ebusd::symbol_t)((sendSymbol == #%d) ? #1 : #0)' % SYN, '((sendSymbol == #%d) ? #1 : #0)' % SYN)
+    want2 = ('(ebusd::symbol_t)((%s == #%d) ? #0 : #1)' % (sendSymbol, ESC), '((%s == #%d) ? #0 : #1)' % (sendSymbol, ESC),
+             '(ebusd::symbol_t)((%s == #%d) ? #1 : #0)' % (sendSymbol, SYN), '((%s == #%d) ? #1 : #0)' % (sendSymbol, SYN))
     ctx.ob('C11.R3', hs, second[0], second[1] in want2, 'handleSend second escape byte', 'sends %s second' % second[1])
-    alts = [('(sendSymbol == #%d)' % ESC, True), ('(sendSymbol == #%d)' % SYN, True)]
+    alts = [('(%s == #%d)' % (sendSymbol, ESC), True), ('(%s == #%d)' % (sendSymbol, SYN), True)]
     okg = hs.needs_one_of(second[0], alts) and hs.needs_one_of(first[0], alts)
     # and conversely: a symbol that is ESC or SYN cannot reach the send call without passing one of the two assignments
-    sends = [c for c in hs.all('CXXMemberCallExpr') if (hs.nodes[c].get('callee') or '').endswith('Device::send')]
     conv = True
     for sc in sends:
         for k, p in alts:
@@ -172,21 +185,24 @@ def r3(ctx):
            'escape assignments only for ESC/SYN: %s; ESC/SYN never reach send() unescaped: %s' % (okg, conv))
     # the pending symbol must be remembered
     rem = [hs.key(rhs) for nid, d, rhs, op, lhs in hs.assignments() if d == 'this.m_escape' and rhs is not None]
-    ctx.ob('C11.R3', hs, first[0], 'sendSymbol' in rem, 'handleSend remembers escaped symbol', 'm_escape := %s' % rem)
+    ctx.ob('C11.R3', hs, first[0], sendSymbol in rem, 'handleSend remembers escaped symbol', 'm_escape := %s' % rem)
     # --- handleReceive
     hr = fb.fn('ebusd::DirectProtocolHandler::handleReceive')
     ctx.touch(hr)
     found = False
+    recvSymbol = hr.outarg('Device::recv', 1)
+    if recvSymbol is None:
+        raise AnalysisBroken('C11.R3: Device::recv call in handleReceive not found')
     for nid, d, rhs, op, lhs in hr.assignments():
-        if d and d.endswith(':recvSymbol') and op == '=' and rhs is not None:
+        if d and d.endswith(':' + recvSymbol) and op == '=' and rhs is not None:
             k = hr.key(rhs)
-            if '?' in k and 'recvSymbol ==' in k:
+            if '?' in k and recvSymbol + ' ==' in k:
                 atoms = dict((a[0], a[1]) for a in hr.atoms(nid))
                 found = True
-                ok = k in ('((recvSymbol == #0) ? #%d : #%d)' % (ESC, SYN), '((recvSymbol == #1) ? #%d : #%d)' % (SYN, ESC))
-                ok = ok and atoms.get('this.m_escape') is True and atoms.get('(recvSymbol <= #1)') is True
+                ok = k in ('((%s == #0) ? #%d : #%d)' % (recvSymbol, ESC, SYN), '((%s == #1) ? #%d : #%d)' % (recvSymbol, SYN, ESC))
+                ok = ok and atoms.get('this.m_escape') is True and atoms.get('(%s <= #1)' % recvSymbol) is True
                 ctx.ob('C11.R3', hr, nid, ok, 'handleReceive unescape', 'unescape %s under %s' % (
-                    k, sorted((a, b) for a, b in atoms.items() if 'escape' in a or 'recvSymbol' in a)))
+                    k, sorted((a, b) for a, b in atoms.items() if 'escape' in a or recvSymbol in a)))
     if not found:
         raise AnalysisBroken('C11.R3: unescape assignment in handleReceive not recognised')
 
@@ -206,7 +222,7 @@ def nibble(fn, nid):
         if m is None:
             m = fn.val(v['lhs'])
             other = v['rhs']
-        if m is not None and fn.key(fn.strip(other, casts=True)) == 'addr':
+        if m is not None and fn.key(fn.strip(other, casts=True)) == fn.P(0):
             return (m, sh)
     return None
 
@@ -275,8 +291,9 @@ def r4(ctx):
         f = fb.fn(fname)
         ctx.touch(f)
         offs = set()
+        addr = f.P(0)
         for nid, v in f.nodes.items():
-            if v['k'] == 'BinaryOperator' and v.get('op') in ('+', '-') and 'addr' in f.key(nid):
+            if v['k'] == 'BinaryOperator' and v.get('op') in ('+', '-') and addr in f.key(nid):
                 full = nid
                 # climb to the largest arithmetic expression
                 p = f.parent(full)
@@ -288,7 +305,6 @@ def r4(ctx):
                 tot = 0
                 ok = True
                 import re
-                m = re.match(r'^\(*addr( [+-] #\d+\)?)+$', k.replace('(', '').replace(')', ''))
                 terms = re.findall(r'([+-]) #(\d+)', k)
                 if terms:
                     tot = sum(int(n) if s == '+' else -int(n) for s, n in terms) % 256
@@ -298,7 +314,7 @@ def r4(ctx):
         rel = []
         for nid, v in sorted(f.nodes.items()):
             if v['k'] == 'BinaryOperator' and v.get('op') in ('<', '>', '<=', '>='):
-                if 'addr' in (f.key(f.strip(v['lhs'], casts=True)), f.key(f.strip(v['rhs'], casts=True))):
+                if addr in (f.key(f.strip(v['lhs'], casts=True)), f.key(f.strip(v['rhs'], casts=True))):
                     rel.append(f.text(nid))
         ctx.ob('C11.R4', f, f.body, not rel, what + ' is total (wraps modulo 256)',
                'magnitude test(s) on the address exclude the wrapping pair FF/04: %s' % rel if rel else 'no magnitude test on the address')
@@ -317,10 +333,11 @@ def r4(ctx):
         ks = set(facts.atom_key(iv, a) for a in conj)
         e = set(k for k, p in ks if not p)
         excl = e if not excl else (excl & e)
-    okv = ('(addr == #%d)' % SYN) in excl and ('(addr == #%d)' % ESC) in excl
+    addr, allowB = iv.P(0), iv.P(1)
+    okv = ('(%s == #%d)' % (addr, SYN)) in excl and ('(%s == #%d)' % (addr, ESC)) in excl
     # broadcast handling: one disjunct with allowBroadcast true, one with addr != BROADCAST
-    okb = any(('allowBroadcast', True) in set(facts.atom_key(iv, a) for a in c) for c in dnf) and \
-        any(('(addr == #%d)' % BROADCAST, False) in set(facts.atom_key(iv, a) for a in c) for c in dnf) and len(dnf) == 2
+    okb = any((allowB, True) in set(facts.atom_key(iv, a) for a in c) for c in dnf) and \
+        any(('(%s == #%d)' % (addr, BROADCAST), False) in set(facts.atom_key(iv, a) for a in c) for c in dnf) and len(dnf) == 2
     ctx.ob('C11.R4', iv, rets[0] if rets else iv.body, okv and okb, 'isValidAddress exclusions',
            'always excluded: %s; broadcast only when allowed: %s' % (sorted(excl), okb))
     # derived facts from the extracted tables (pure arithmetic on the tables, no ebusd code is run)
